@@ -6,6 +6,9 @@
     pegrows                                       -> global flags + opcode numbers whose verifier row does not cover peg_rule
     pegverify <num_constants> <words...>          -> "acc" | "rej"   (model of the verifier in peg_unmarshal)
     verify <sc> <arity> <vararg> <nc> <nd> <ne> <hex of u32 LE words> -> error code of the janet_verify model (0 = accepted)
+    umsites                                       -> "ok" | "bad <site>..."       (read sites of marsh.c whose test does not dominate the reads)
+    um [<hex>]                                    -> "acc <consumed> <type>" | "rej <class>" | "oob <site>" | "fuel"
+                                                     (byte-level unmarshal model with the sites of the current source)
 -/
 import Driver.Util
 import JanetModel.Bytecode.VerifyDefs
@@ -14,6 +17,7 @@ import JanetModel.Unmarsh.Image
 import JanetModel.Gen.ImageChecks
 import JanetModel.PegVerify.Defs
 import JanetModel.Gen.PegAccess
+import JanetModel.Unmarsh.BytesCfg
 open Driver JanetModel.Bytecode JanetModel.Gen.VmAccess JanetModel.Unmarsh
 
 def allChecks : Checks :=
@@ -35,8 +39,29 @@ def wordsOfBytes : List Nat → List Nat
   | a :: b :: c :: d :: rest => (a + 256 * b + 65536 * c + 16777216 * d) :: wordsOfBytes rest
   | _ => []
 
+def typeName : JanetModel.Unmarsh.Bytes.V → String
+  | .int => "number" | .real => "number" | .nil => "nil" | .bool => "boolean" | .str => "string" | .sym _ => "symbol"
+  | .kw => "keyword" | .buf => "buffer" | .arr => "array" | .tup => "tuple" | .struct => "struct" | .tab => "table"
+  | .fiber _ => "fiber" | .func _ => "function" | .abs => "abstract"
+
+def runUm (bs : List Nat) : String :=
+  let C := JanetModel.Unmarsh.Bytes.cfg
+  match JanetModel.Unmarsh.Bytes.unmarshal C bs.toArray (JanetModel.Unmarsh.Bytes.fuelBound C) with
+  | .ok v c => s!"acc {c.pos} {typeName v}"
+  | .err e => "rej " ++ (reprStr e).replace "JanetModel.Unmarsh.Bytes.Err." ""
+  | .oob site => s!"oob {site}"
+  | .fuel => "fuel"
+
 def step (_ : Unit) (toks : List String) : Unit × String :=
   match toks with
+  | ["umsites"] =>
+    let bad := JanetModel.Unmarsh.Bytes.cfg.sites.bad
+    ((), if bad.isEmpty then "ok" else "bad " ++ " ".intercalate bad)
+  | ["um"] => ((), runUm [])
+  | ["um", h] =>
+    match bytesOfHex h with
+    | some bs => ((), runUm bs)
+    | none => ((), "bad-op")
   | ["rows"] =>
     let bad := tables.badRows
     ((), if bad.isEmpty then "ok" else "bad " ++ " ".intercalate (bad.map toString))
